@@ -706,14 +706,11 @@ fn convert_rpx_in_block(
     ss: &mut StyleSheetTransformer,
     convert_options: Option<ConvertOptions>,
 ) {
-    let mut skip_whitespace = true;
-    let mut in_calc = false;
-    if let Some(options) = convert_options {
-        if options.in_calc {
-            skip_whitespace = false;
-            in_calc = true;
-        }
-    }
+    // (the blanks around `+` and `-` are kept everywhere, not only in math functions: a custom property or a
+    // `var()` fallback may hold a calculation that is substituted into `calc()` later)
+    let skip_whitespace = false;
+    let in_calc = true;
+    let _ = convert_options;
     input
         .parse_nested_block::<_, (), ()>(|nested_input| {
             let input = &mut StepParser::wrap(nested_input);
